@@ -252,12 +252,16 @@ def extract_branch_results_with_internals(net, branch_results, table_name,
             _, sections, connected_sum = _sum_by_group(use_numba, idx_pit, np.ones_like(idx_pit),
                                 comp_connected.astype(np.int32))
             connected_ind = connected_sum > 0.99
-            indices_last_section = (np.cumsum(sections) - 1).astype(int)[connected_ind]
             # hint: idx_pit[placement_table] should result in the indices as ordered in the table
             pt = placement_table[connected_ind]
+            # the sections are sorted by index, but the pit is ordered like the table: bring the
+            # section numbers into table order to find the last section of each element in the pit
+            sections_table = np.zeros_like(sections)
+            sections_table[placement_table] = sections
+            indices_last_section = (np.cumsum(sections_table) - 1).astype(int)[pt]
 
             for i, (res_name, entry) in enumerate(res_branch):
-                res_table[res_name].values[pt] = branch_results[entry][indices_last_section]
+                res_table[res_name].values[pt] = branch_results[entry][f:t][indices_last_section]
 
 
 def extract_branch_results_without_internals(net, branch_results, required_results_hydraulic,
